@@ -45,6 +45,17 @@ VERDICT = {
     "C17-2": ("C17 K2", "second probe option added after the miss"),
     "C18-1": ("C18 D", "root __init__ + uniqueness added after the miss"),
     "C18-2": ("C18 E", "obligation added after the miss"),
+    # second round (same protocol, after the strengthening above)
+    "C02-3": ("C02 K4", "the sub-agent independently made the same slip as C02-1"),
+    "C02-4": ("C02 K5", "indirection kernel added after the miss; replay = warm vs cold runs"),
+    "C11-3": ("C11 K2b", ""),
+    "C11-4": ("C11 K2c", "set-order kernel added after the miss; replay over 12 hash seeds"),
+    "C16-3": ("C16 K1d", ""),
+    "C16-4": ("C16 K2", "deep-JSON fault kind added after the miss"),
+    "C17-3": ("C17 K2", ""),
+    "C17-4": ("C17 K4", ""),
+    "C18-3": ("C18 D", ""),
+    "C18-4": ("C18 F", "abspath-key check added after the miss"),
     "C20-1": (None, "crash from program structure (recursive alias): outside the narrow folding claim"),
     "C20-2": (None, "daemon loop: outside the narrow folding claim"),
 }
